@@ -1564,6 +1564,15 @@ private:
 	    return false;
 	  }
 
+	  // The recursive functions are collected from the WTOs of all
+	  // the call graph entries but the nesting below is the one of
+	  // the current entry, so a fixpoint on which node depends can
+	  // be running without being in node's nesting.
+	  if (m_ctx.get_recursive_set().count(node) > 0 &&
+	      !func_fixpoint_table.empty()) {
+	    return false;
+	  }
+
 	  // If node is part of a WTO nesting then we need to check
 	  // all the nesting's elements have been stabilized.
 	  if (boost::optional<typename global_context_t::wto_cg_nesting_t> nesting_opt =
